@@ -122,14 +122,16 @@ def direction_table(repo: Repo, R):
         ("role_is_dest", m_pat(f"$B.role == {leaf}.dest")),
     ]
 
+    FLIP = {"INPUT": "OUTPUT", "OUTPUT": "INPUT", "INOUT": "INOUT", "NONE": "NONE", "KEEP": "FLIPPED", "FLIPPED": "KEEP"}
+
     def norm(v):
+        # `<x>.flipped()` is evaluated on the normal form of <x> (C10.1 establishes what PortDir.flipped does)
+        if isinstance(v, ast.Call) and isinstance(v.func, ast.Attribute) and v.func.attr == "flipped" and not v.args and not v.keywords:
+            inner = norm(v.func.value)
+            return FLIP.get(inner, f"{inner}.flipped()")
         s = ast.unparse(v)
-        if s.startswith("Visibility."):
-            return s.split(".")[1]
-        if s.startswith("PortDir."):
-            return s.split(".")[1]
-        if s == f"{leaf}.direction.flipped()":
-            return "FLIPPED"
+        if isinstance(v, ast.Attribute) and isinstance(v.value, ast.Name) and v.value.id in ("Visibility", "PortDir"):
+            return v.attr
         if s == f"{leaf}.direction":
             return "KEEP"
         return s
